@@ -8,6 +8,7 @@ import (
 	"bytes"
 	"encoding/json"
 	"fmt"
+	"github.com/onflow/atree"
 )
 
 // SchedSpec places storage-schedule actions between the steps of a base trace by rule,
@@ -56,6 +57,44 @@ func runWithSchedule(cfg Config, steps []Step, sched SchedSpec, stats *Stats, en
 			return w.execGuarded(&Step{Op: "dropcache"})
 		case "reopen":
 			return w.execGuarded(commitStep("reopen"))
+		case "faulted-read":
+			// commit, evict, then one read-only traversal of every root during which the k-th ledger read or the k-th
+			// element-decoder call fails once (the traversal's outcome is ignored): a failed read may not leave
+			// anything behind in the cache, so everything after it is served as if it had not happened
+			if v := w.execGuarded(commitStep("commit")); v != nil {
+				return v
+			}
+			if v := w.execGuarded(&Step{Op: "dropcache"}); v != nil {
+				return v
+			}
+			k := 1 + cr.Intn(6)
+			useDecode := cr.Chance(0.5)
+			for _, r := range w.Model.Roots() {
+				if r.Volatile {
+					continue
+				}
+				w.Ctl.Reset()
+				if useDecode {
+					w.Ctl.FailAt["decode"] = k
+				} else {
+					w.Ledger.SetPlan(&FaultPlan{FailReadAt: map[int]bool{k: true}})
+				}
+				func() {
+					defer func() { _ = recover() }()
+					if v, err := w.openRoot(w.Storage, r); err == nil {
+						switch x := v.(type) {
+						case *atree.Array:
+							_ = x.IterateReadOnly(func(atree.Value) (bool, error) { return true, nil })
+						case *atree.OrderedMap:
+							_ = x.IterateReadOnly(func(atree.Value, atree.Value) (bool, error) { return true, nil })
+						}
+					}
+				}()
+				w.Ledger.SetPlan(nil)
+				w.Ctl.Reset()
+			}
+			w.Handles = map[int]any{}
+			return nil
 		case "preload":
 			// commit, evict, then fill the read cache in bulk (serial or parallel decode; ids that do not
 			// exist sit between the real ones): what the cache then serves must be what a fresh decode serves
@@ -86,7 +125,7 @@ func runWithSchedule(cfg Config, steps []Step, sched SchedSpec, stats *Stats, en
 			}
 		}
 		if kind == "mixed" {
-			kind = []string{"commit", "commit+drop", "reopen", "drop", "preload"}[sr.Intn(5)]
+			kind = []string{"commit", "commit+drop", "reopen", "drop", "preload", "faulted-read"}[sr.Intn(6)]
 		}
 		if kind != "" {
 			nres := len(w.Results)
@@ -175,7 +214,7 @@ func schedVariants(r *Rng, n int) []SchedSpec {
 		{Mode: "every", K: 1, Act: "commit+drop"},
 		{Mode: "every", K: 1, Act: "reopen"},
 	}
-	acts := []string{"commit", "commit+drop", "reopen", "mixed", "drop", "preload", "mixed"}
+	acts := []string{"commit", "commit+drop", "reopen", "mixed", "drop", "preload", "mixed", "faulted-read"}
 	for len(out) < n {
 		if r.Chance(0.4) {
 			out = append(out, SchedSpec{Mode: "every", K: r.Range(2, 9), Act: acts[r.Intn(len(acts))], Seed: r.U64()})
@@ -189,8 +228,8 @@ func schedVariants(r *Rng, n int) []SchedSpec {
 func init() {
 	ps := &PropSpec{
 		ID: "C08", Level: "exploration",
-		Verdict: []string{"diff."},
-		Rule: "one generated container-step sequence (arrays, maps, nested, large and boundary-sized values; handles kept across commits, nested handles re-obtained after eviction, all handles after reopen) is executed under the base schedule 'no commit until the end' and under >= 4 other placements of {commit, commit+drop-cache, drop-cache, reopen} (always including 'after every step' for commit+drop-cache and for reopen); step results must be equal, every execution must pass content/structure/recovery oracles, and in the byte-identical profile (no composite types) the final registers must be byte-identical; in the compact profile only logical content and order against the current seed are compared. Non-trivial = >= 3 slabs and the schedules fired >= 10 actions; distinct by trace hash",
+		Verdict:       []string{"diff."},
+		Rule:          "one generated container-step sequence (arrays, maps, nested, large and boundary-sized values; handles kept across commits, nested handles re-obtained after eviction, all handles after reopen) is executed under the base schedule 'no commit until the end' and under >= 4 other placements of {commit, commit+drop-cache, drop-cache, reopen} (always including 'after every step' for commit+drop-cache and for reopen); step results must be equal, every execution must pass content/structure/recovery oracles, and in the byte-identical profile (no composite types) the final registers must be byte-identical; in the compact profile only logical content and order against the current seed are compared. Non-trivial = >= 3 slabs and the schedules fired >= 10 actions; distinct by trace hash",
 		ExpectedReach: []string{"sched.commit+drop", "sched.reopen", "sched.drop", "profile.byte-identical", "profile.compact"},
 	}
 	type aux struct {
